@@ -56,8 +56,8 @@ impl Property for C05 {
     fn plan(&self, suite: SuiteId, tier: Tier) -> Vec<(u32, u32)> {
         // stratum = |S|
         match (tier, suite.slow()) {
-            (Tier::Quick, false) => vec![(2, 10), (3, 10), (4, 6)],
-            (Tier::Quick, true) => vec![(2, 3), (3, 2), (4, 1)],
+            (Tier::Quick, false) => vec![(2, 20), (3, 20), (4, 12)],
+            (Tier::Quick, true) => vec![(2, 4), (3, 3), (4, 2)],
             (Tier::Thorough, false) => vec![(2, 150), (3, 150), (4, 100), (5, 30)],
             (Tier::Thorough, true) => vec![(2, 30), (3, 30), (4, 16), (5, 4)],
         }
